@@ -499,7 +499,7 @@ func c02TypeValueRebinds(vals []zed.Value) bool {
 	found := false
 	for _, v := range vals {
 		gen.WalkLeaves(v.Type(), v.Bytes(), 0, func(t zed.Type, b zcode.Bytes, _ int) {
-			if t.ID() != zed.IDType || b == nil || found {
+			if zed.TypeUnder(t).ID() != zed.IDType || b == nil || found {
 				return
 			}
 			tv, err := zed.NewContext().LookupByValue(bytes.Clone(b))
@@ -508,8 +508,11 @@ func c02TypeValueRebinds(vals []zed.Value) bool {
 			}
 			gen.WalkType(tv, func(t zed.Type) {
 				if n, ok := t.(*zed.TypeNamed); ok {
-					if m := used[n.Name]; m != nil && !m[gen.TypeString(n)] {
-						found = true
+					// the name is bound to some other type somewhere in the values' types
+					for k := range used[n.Name] {
+						if k != gen.TypeString(n) {
+							found = true
+						}
 					}
 				}
 			})
@@ -799,7 +802,7 @@ var c02Edits = []c02Edit{
 		trigger: func(vals []zed.Value, _ error) bool { return c02TypeValueRebinds(vals) },
 		apply: func(vals []zed.Value) []zed.Value {
 			return c02RewriteLeaves(vals, func(t zed.Type, b zcode.Bytes) zcode.Bytes {
-				if t.ID() != zed.IDType {
+				if zed.TypeUnder(t).ID() != zed.IDType {
 					return b
 				}
 				zctx := zed.NewContext()
@@ -1489,6 +1492,24 @@ var c02Directed = []c02DirectedCase{
 	}},
 	{"json-duplicate-key", func(o *rt.Obs) {
 		c02JSONCheckDocs(o, []*jnode{(&jnode{K: 'o', Keys: []string{"a", "b", "a"}, Kids: []*jnode{{K: 'n', Num: "1"}, {K: 't'}, {K: 's', S: "x"}}}).finish(rt.NewRand(1))})
+	}},
+	{"name-rebound-inside-an-error-type", func(o *rt.Obs) {
+		// {key:[1](=bar),e:error(2)(error(bar=error(int64)))} twice in one stream: the
+		// second value's key must not be printed `(bar)`
+		z := zed.NewContext()
+		bar1 := mustNamed(z, "bar", z.LookupTypeArray(zed.TypeInt64))
+		bar2 := mustNamed(z, "bar", z.LookupTypeError(zed.TypeInt64))
+		rec := z.MustLookupTypeRecord([]zed.Field{zed.NewField("key", bar1), zed.NewField("e", z.LookupTypeError(bar2))})
+		var b zcode.Builder
+		b.BeginContainer()
+		b.BeginContainer()
+		b.Append(zed.EncodeInt(1))
+		b.EndContainer()
+		b.Append(zed.EncodeInt(2))
+		b.EndContainer()
+		it := b.Bytes().Iter()
+		v := zed.NewValue(rec, it.Next())
+		c02RunAllModes(o, []zed.Value{v, v})
 	}},
 }
 
